@@ -341,11 +341,22 @@ static void run_config(const Config & c, uint64_t seed, long n_iid, int n_grid)
     // deep steering through the daughter's de-excitation cascade (thresholds given on the spec line)
     long deep_events = getenv("VERIF_DEEP_EVENTS") ? atol(getenv("VERIF_DEEP_EVENTS")) : 0;
     if (deep_events > 0 && !c.thr.empty()) {
-      ds = deep_steer(tape, seed, stream + (1ULL << 22), c.thr, deep_events, 4, [&](const std::string & steer, size_t & d) {
+      ds = deep_steer(tape, seed, stream + (1ULL << 22), c.thr, deep_events - deep_events / 3, 4, [&](const std::string & steer, size_t & d) {
         one(steer);
         d = last_draws;
         return last_sig;
       });
+      // second pass guided by (branch, number of deviates): both sides of every accept/reject boundary (see c01_diff.cc)
+      DeepSteerStats ds2 = deep_steer(tape, seed, stream + (1ULL << 22) + 64, c.thr, deep_events / 3, 4, [&](const std::string & steer, size_t & d) {
+        one(steer);
+        d = last_draws;
+        return last_sig * 1000003ull + (uint64_t)last_draws;
+      });
+      ds.events += ds2.events;
+      ds.nodes_expanded += ds2.nodes_expanded;
+      ds.nodes_found += ds2.nodes_found;
+      ds.max_depth = std::max(ds.max_depth, ds2.max_depth);
+      ds.frontier_left += ds2.frontier_left;
     }
     if (gen_ok && std::fabs(gen.get_to_all_events() - pars.toallevents) > 1e-6 * pars.toallevents)
       record(st.mm, lab + "|porcelain-toallevents", fmt("get_to_all_events %.12g vs genbbsub %.12g", gen.get_to_all_events(), pars.toallevents));
